@@ -17,8 +17,8 @@ func init() {
 				"C10.plus6 (the round recorded is the parameter round-received + 6; both callers pass block.RoundReceived()), C10.accepted (WithNewPeer / WithRemovedPeer only under Accepted==true and the matching transaction type; the type switch covers every declared TransactionType), " +
 				"C10.lookup (PeerSetCache.Get returns the entry with the greatest round <= r; rounds kept sorted), C10.member (_witness true only for creators in the round's set; _stronglySee counts members of the given set only), " +
 				"C10.hash (Frame.Peers and BlockBody.PeersHash derive from the set of round-received; PeerSet.Hash folds the keys in slice order), C10.itx (internal transactions enter the pool only verified or self-signed), " +
-				"C10.immutable (a recorded set is never changed through a derived one or through a borrowed slice: no append into a truncated view of another set's Peers slice, no element store into it, no sort.* call whose argument is — through any chain of calls — the Peers slice of an existing set), C10.firstround (a peer's first round is the minimum over the recorded sets whatever the order in which they are recorded), C10.latest (every store to core.validators takes the genesis set, the value just recorded with SetPeerSet, or a value derived from the whole peer-set history). NOT decided: equality of histories across nodes (follows from agreement)."},
-		Rules: []ruleFunc{c10writers, c10plus6, c10accepted, c10lookup, c10member, c10hash, c10itx, c10latest, c10alias, c10immutable, func(p *Prog, r *Report) { firstRoundRule(p, r, "C10.firstround") }},
+				"C10.everyreceipt (the receipts of every block are examined: no success return of processAcceptedInternalTransactions before its loop over the receipts, except for an empty list), C10.immutable (a recorded set is never changed through a derived one or through a borrowed slice: no append into a truncated view of another set's Peers slice, no element store into it, no sort.* call whose argument is — through any chain of calls — the Peers slice of an existing set), C10.firstround (a peer's first round is the minimum over the recorded sets whatever the order in which they are recorded), C10.latest (every store to core.validators takes the genesis set, the value just recorded with SetPeerSet, or a value derived from the whole peer-set history). NOT decided: equality of histories across nodes (follows from agreement)."},
+		Rules: []ruleFunc{c10writers, c10plus6, c10accepted, c10lookup, c10member, c10hash, c10itx, c10latest, c10alias, c10immutable, func(p *Prog, r *Report) { everyReceiptRule(p, r, "C10.everyreceipt") }, func(p *Prog, r *Report) { firstRoundRule(p, r, "C10.firstround") }},
 	})
 }
 
@@ -866,4 +866,67 @@ func sameConst(a, b ssa.Value) bool {
 	ka, oka := intConst(a)
 	kb, okb := intConst(b)
 	return oka && okb && ka == kb
+}
+
+// everyReceiptRule: the receipts of EVERY committed block are applied — also those of the anchor
+// block that Node.fastForward hands over after a reset (whose round equals LastConsensusRound at
+// that moment). processAcceptedInternalTransactions may not return success before it has looked at
+// the receipts: every success return is reached through the loop over the receipts, unless the
+// list is empty.
+func everyReceiptRule(p *Prog, r *Report, rule string) {
+	r.Rule(rule, 1, "processAcceptedInternalTransactions looks at the receipts on every path to a success return (no early exit that depends on other state)")
+	fn := p.Func(NODE, "core", "processAcceptedInternalTransactions")
+	if fn == nil || len(fn.Params) < 3 {
+		r.Anchor(rule, "node.(*core).processAcceptedInternalTransactions")
+		return
+	}
+	receipts := ssa.Value(fn.Params[2])
+	var lp *loopInfo
+	for _, l := range naturalLoops(fn) {
+		if src, ok := loopSourceOf(fn, l); ok && src != nil && flowsFromLocal(src, func(x ssa.Value) bool { return x == receipts }) {
+			if lp == nil || len(l.body) > len(lp.body) {
+				lp = l
+			}
+		}
+	}
+	if lp == nil {
+		r.Fail(rule, "processAccepted:receipt-loop", p.pos(fn.Pos()), fnName(fn), "no loop over the receipts found")
+		return
+	}
+	qEmpty := func(l Lit) bool {
+		x, y, ok := eqLit(l)
+		if !ok {
+			return false
+		}
+		for _, pair := range [][2]ssa.Value{{x, y}, {y, x}} {
+			if s, isLen := isLenOf(pair[0]); isLen && flowsFromLocal(s, func(v ssa.Value) bool { return v == receipts }) {
+				if k, okc := intConst(pair[1]); okc && k == 0 {
+					return true
+				}
+			}
+		}
+		return false
+	}
+	ok := true
+	where := ""
+	for _, rp := range p.succRets(fn, errNil, 0) {
+		if dominatesBlock(lp.head, rp.ret.Block()) {
+			continue
+		}
+		if g, _ := p.holdsAtRet(rp, []Pred{qEmpty}, all(1)); g {
+			continue
+		}
+		ok = false
+		where = p.ipos(rp.ret)
+	}
+	r.Check(ok, rule, "processAccepted:every-receipt-examined", p.pos(fn.Pos()), fnName(fn), "success only after the loop over the receipts (or for an empty list)",
+		"processAcceptedInternalTransactions can return success at "+where+" without looking at the receipts: the accepted join / leave of that block is never recorded — e.g. the anchor block's receipts handed over by Node.fastForward right after Reset set LastConsensusRound to the anchor round — and the node's validator-set history diverges from then on")
+}
+
+// dominatesBlock: every feasible path to b passes through a (jump threading aware).
+func dominatesBlock(a, b *ssa.BasicBlock) bool {
+	if a == b || a.Dominates(b) {
+		return true
+	}
+	return a.Parent() == b.Parent() && len(a.Parent().Blocks) > 0 && !reachesAvoiding(a.Parent().Blocks[0], b, a)
 }
